@@ -248,6 +248,8 @@ func (o *objectGoSlice) defineOwnPropertyStr(name unistring.String, descr Proper
 		return o.putIdx(idx, val, throw)
 	}
 	if name == "length" {
+		// the property value is only brought up to date when it is read
+		o.updateLen()
 		return o.val.runtime.defineArrayLength(&o.lengthProp, descr, o.putLength, throw)
 	}
 	o.val.runtime.typeErrorResult(throw, "Cannot define property '%s' on a Go slice", name)
